@@ -47,6 +47,8 @@ def bounds():
             bs = '8 ulp of max(|result|, 1) / not analysed'
         thr = ' / '.join(('%g ulp' % (x + 3.5)) if x is not None else '-' for x in b)
         rows.append('| %s | %s | %s | %s | %s |' % (fn, bs, thr, '%.3g ulp' % f32 if f32 is not None else '-', '%.3g ulp' % f64 if f64 is not None else '-'))
+    for fn, b in sorted(c10.PATHS_ONLY.items()):
+        rows.append('| %s | %g ulp / %g ulp (frozen here; path-agreement and intermediate-overflow clauses only, no kernel clause) | %g ulp / %g ulp | - | - |' % (fn, b[0], b[1], b[0] + 3.5, b[1] + 3.5))
     return '\n'.join(rows)
 
 
